@@ -432,8 +432,15 @@ func (matrix *SparseReal32Matrix) ElementType() ScalarType {
 }
 // Treat all elements as variables for automatic differentiation. This method should only be called on a single vector or matrix. If multiple matrices should be treated as variables, then a single matrix must be allocated first and sliced after calling this method.
 func (matrix *SparseReal32Matrix) Variables(order int) error {
-  for i, v := range matrix.values.values {
-    if err := v.SetVariable(i, matrix.values.Dim(), order); err != nil {
+  // number the entries as the matrix is seen through this (possibly sliced)
+  // view; entries of the parent outside the view are not touched
+  n, m := matrix.Dims()
+  for k, v := range matrix.values.values {
+    i, j := matrix.ij(k)
+    if i < 0 || i >= n || j < 0 || j >= m {
+      continue
+    }
+    if err := v.SetVariable(i*m + j, n*m, order); err != nil {
       return err
     }
   }
